@@ -105,12 +105,17 @@ package ledger
 // decay (floating point, memoised per period) is not modelled: CalcAward is ASSUMED
 // to be this function of configuration and height (trusted).
 //@ spec func awardAt(gb *GenesisBlock, h int) int
+// What IS checked of the body: the decay is computed from the CONFIGURED award, through all
+// `period` steps - never continued from whatever an earlier call left in the cache (two
+// nodes with different histories must agree on the award of a height).
+//@ spec func decayed(a int, r real, k int) real = k <= 0 ? a : decayed(a, r, k - 1) * r
 //@ func GenesisBlock.CalcAward
 //@   property C13
-//@   noverify
 //@   modifies ghost bigval
-//@   ensures is_the_prescribed_award: result != nil && sel(bigval, result) == awardAt(gb, blockHeight)
-//@   ensures other_numbers_untouched: forall r int :: r != result ==> sel(bigval, r) == sel(old(bigval), r)
+//@   local realAward float64
+//@   loop 1 invariant decays_from_the_configured_award: 0 <= i && realAward == decayed(sel(bigval, award), gb.config.AwardDecay.Ratio, i)
+//@   assumes is_the_prescribed_award: result != nil && sel(bigval, result) == awardAt(gb, blockHeight)
+//@   assumes other_numbers_untouched: forall r int :: r != result ==> sel(bigval, r) == sel(old(bigval), r)
 
 // A coinbase transaction is valid in a block exactly when its first output carries
 // the award prescribed for the block's own height.
